@@ -116,7 +116,11 @@ def _twin_rename(cs):
         f.write(b"o" + rng.randbytes(3))
     fm = world.gen_formats(rng)[:2]
     steps = []
-    for h in [x for x in hs if x != "."] + ["."]:
+    outer_sealed = "." in hs or rng.random() < 0.6
+    if not outer_sealed:
+        # the folder that holds the cards has never been sealed itself: its first generation is the -dr run
+        cs.count("dr_runs_on_outer_folder_without_generation")
+    for h in [x for x in hs if x != "."] + (["."] if outer_sealed else []):
         r = drive.run("create", [root if h == "." else os.path.join(root, h)] + world.fmt_args(fm))
         steps.append(f"create {h} => {r.exit}")
         if r.exit != 0:
@@ -134,12 +138,12 @@ def _twin_rename(cs):
     steps.append(f"create -dr => {r.exit}")
     cs.evaluated()
     cs.count("dr_runs_judged")
-    cs.cls("twin-rename", "n%d" % len(ren), "root-in" if "." in hs else "cards", r.exit)
+    cs.cls("twin-rename", "n%d" % len(ren), "root-in" if "." in hs else "cards" if outer_sealed else "cards-outer-unsealed", r.exit)
     if r.internal:
         cs.violation(classify.internal_key(r), classify.internal_sig(r, "create-dr"), {**ctx, **r.brief()})
         return
     if r.exit != 0:
-        cs.violation("dr-create-nonzero", {"kind": "dr-exit", "exit": r.exit, "stage": "twin", "classes": ["twin-rename"]}, {**ctx, "out": r.text[-500:]})
+        cs.violation("dr-create-nonzero", {"kind": "dr-exit", "exit": r.exit, "stage": "twin", "classes": ["twin-rename"], "outer_sealed": outer_sealed}, {**ctx, "out": r.text[-500:]})
         return
     for h in hs:
         names = [n for n in new.get(h, []) if n.endswith(".mhl")]
@@ -169,10 +173,93 @@ def _twin_rename(cs):
             return
 
 
+def _folder_move(cs):
+    """a folder is renamed, which moves every file below it.  With directory hashes in all generations the run exits 0;
+    when a generation has none (-n) the folder itself cannot be recognised and may be reported missing (10), the files
+    still get their previous paths and nothing aborts"""
+    rng = cs.rng
+    d = cs.dir()
+    root = os.path.join(d, world.root_name(rng))
+    old_dir = rng.choice(["B", "Reel 1", "sub/B"])
+    files = {}
+    for i in range(rng.randint(1, 3)):
+        files[old_dir + "/f%d.bin" % i] = b"moved%d" % i + rng.randbytes(4)
+    files["A/keep.bin"] = b"keep" + rng.randbytes(3)
+    files["top.bin"] = b"top" + rng.randbytes(3)
+    for rel, data in files.items():
+        os.makedirs(os.path.dirname(os.path.join(root, rel)), exist_ok=True)
+        with open(os.path.join(root, rel), "wb") as f:
+            f.write(data)
+    fm = world.gen_formats(rng)[:2]
+    steps = []
+    any_n = False
+    for g in range(rng.randint(1, 2)):
+        n = rng.random() < 0.4
+        any_n = any_n or n
+        r = drive.run("create", [root] + world.fmt_args(fm) + (["-n"] if n else []))
+        steps.append(f"create{' -n' if n else ''} => {r.exit}")
+        if r.exit != 0:
+            cs.skip("prior-seal-failed")
+            return
+    new_dir = os.path.join(os.path.dirname(old_dir), rng.choice(["C", "B renamed", "zz"]))
+    os.rename(os.path.join(root, old_dir), os.path.join(root, new_dir))
+    steps.append(f"folder {old_dir!r} -> {new_dir!r}")
+    n = rng.random() < 0.3
+    any_n = any_n or n
+    cs.count("folder_moves" + ("_with_generation_without_directory_hashes" if any_n else ""))
+    ren = {k: new_dir + k[len(old_dir):] for k in files if k.startswith(old_dir + "/")}
+    ctx = {"steps": steps, "renames": ren, "classes": ["folder-move"], "any_n": any_n}
+    r, new, before, after = hist.create(root, fm, ["-dr"] + (["-n"] if n else []))
+    steps.append(f"create -dr{' -n' if n else ''} => {r.exit}")
+    cs.evaluated()
+    cs.count("dr_runs_judged")
+    cs.cls("folder-move", "n" if any_n else "dh", r.exit)
+    if r.internal:
+        cs.violation(classify.internal_key(r), {**classify.internal_sig(r, "create-dr"), "folder_move": True}, {**ctx, **r.brief()})
+        return
+    named_missing = []
+    if "missing file(s):" in r.text:
+        for l in r.text.split("missing file(s):", 1)[1].splitlines()[1:]:
+            if not l.startswith("  "):
+                break
+            named_missing.append(l[2:])
+    if r.exit != 0 and not (any_n and r.exit == 10 and named_missing == [old_dir]):
+        cs.violation("dr-create-nonzero", {"kind": "dr-exit", "exit": r.exit, "stage": "folder-move", "classes": ["folder-move"], "without_dir_hashes": any_n}, {**ctx, "out": r.text[-500:]})
+        return
+    names = [x for x in new.get(".", []) if x.endswith(".mhl")]
+    if len(names) != 1:
+        cs.violation("dr-no-manifest", {"kind": "dr-manifest-count"}, ctx)
+        return
+    m = xmlread.read_manifest_bytes(after["."][names[0]])
+    recs = {x["path"]: x for x in m["hashes"] if x["kind"] == "file"}
+    for old, nw in ren.items():
+        cs.count("previous_path_checked")
+        rec = recs.get(nw)
+        if rec is None:
+            cs.violation("renamed-file-not-recorded", {"kind": "dr-record-missing", "stage": "folder-move"}, {**ctx, "new": nw})
+        elif rec["previousPath"] != old:
+            cs.violation("previous-path-wrong", {"kind": "dr-previous-path", "got_none": rec["previousPath"] is None, "stage": "folder-move", "classes": ["folder-move"]}, {**ctx, "new": nw, "got": rec["previousPath"], "want": old})
+    if r.exit != 0:
+        return
+    for cmd in ("verify", "diff", "create"):
+        r2 = drive.run(cmd, [root] + (world.fmt_args(fm) if cmd == "create" else []))
+        steps.append(f"{cmd} => {r2.exit}")
+        cs.evaluated()
+        cs.count("followup_commands")
+        if r2.internal:
+            cs.violation(classify.internal_key(r2), classify.internal_sig(r2, cmd + "-after-dr"), {**ctx, **r2.brief()})
+            return
+        if r2.exit != 0:
+            cs.violation("followup-after-dr-nonzero", {"kind": "after-dr", "cmd": cmd, "exit": r2.exit, "stage": "folder-move"}, {**ctx, "out": r2.text[-500:]})
+            return
+
+
 def run_case(cs):
     if cs.rng.random() < 0.05:
         return _nested_namesake(cs)
-    if cs.rng.random() < 0.05:
+    if cs.rng.random() < 0.06:
+        return _folder_move(cs)
+    if cs.rng.random() < 0.08:
         return _twin_rename(cs)
     rng = cs.rng
     tree = world.gen_tree(rng, max_files=8, max_dirs=rng.choice([0, 2, 4]), min_files=2, classes=["plain", "plain", "space", "uni", "punct"], distinct=True)
